@@ -1,5 +1,5 @@
 // bounded stand-in / replay driver (appended to acts/src/cache/tests.rs of a scratch copy): property C11.
-// (also C03: the process state mirrors a terminal root task.)  At quiescent points of 6 histories (an eviction + reload while tasks are in flight; waiting at an act; after a completed act; an error taken by an empty catch; an error taken by a
+// (also C03: the process state mirrors a terminal root task.)  At quiescent points of 7 histories (a script that writes the process environment; an eviction + reload while tasks are in flight; waiting at an act; after a completed act; an error taken by an empty catch; an error taken by a
 // catch with steps; an aborted process kept in the store) the process row and the task rows in the store are compared with the live
 // process: same set of tasks, per task state / prev / data / error / start and end time, per process state / error / env.
 #[tokio::test]
@@ -8,8 +8,8 @@ async fn verif_replay_hist_store_image() {
     use std::sync::{Arc, Mutex};
     let mut bad: Vec<String> = Vec::new();
     #[derive(Clone, Copy, Debug, PartialEq)]
-    enum H { Waiting, AfterComplete, EmptyCatch, CatchWithSteps, Aborted, EvictedInFlight }
-    for h in [H::Waiting, H::AfterComplete, H::EmptyCatch, H::CatchWithSteps, H::Aborted, H::EvictedInFlight] {
+    enum H { Waiting, AfterComplete, EmptyCatch, CatchWithSteps, Aborted, EvictedInFlight, EnvWritten }
+    for h in [H::Waiting, H::AfterComplete, H::EmptyCatch, H::CatchWithSteps, H::Aborted, H::EvictedInFlight, H::EnvWritten] {
         let config = crate::config::ConfigData { keep_processes: Some(true), cache_cap: Some(100), ..crate::config::ConfigData::default() };
         let engine = EngineBuilder::new().set_config(&config).build().await.unwrap().start();
         let rt = engine.runtime();
@@ -19,6 +19,10 @@ async fn verif_replay_hist_store_image() {
                 .with_step(|s| s.with_id("step2").with_act(Act::irq(|a| a.with_key("act2")))),
             H::CatchWithSteps => Workflow::new().with_id("vh").with_input("a", serde_json::json!(1))
                 .with_step(|s| s.with_id("step1").with_catch(|c| c.with_step(|s| s.with_id("cs1").with_act(Act::irq(|a| a.with_key("act2"))))).with_act(Act::irq(|a| a.with_key("act1")))),
+            // a script writes the process environment after the process row was created
+            H::EnvWritten => Workflow::new().with_id("vh").with_input("a", serde_json::json!(1))
+                .with_step(|s| s.with_id("step1").with_act(Act::code(r#"$env.cnt = 7; $env.who = "script";"#).with_id("c1")))
+                .with_step(|s| s.with_id("step2").with_act(Act::irq(|a| a.with_key("act2")))),
             _ => Workflow::new().with_id("vh").with_input("a", serde_json::json!(1))
                 .with_step(|s| s.with_id("step1").with_act(Act::irq(|a| a.with_key("act1"))))
                 .with_step(|s| s.with_id("step2").with_act(Act::irq(|a| a.with_key("act2")))),
@@ -31,7 +35,7 @@ async fn verif_replay_hist_store_image() {
         engine.channel().on_message(move |e| {
             if e.is_key("act1") && e.is_state(MessageState::Created) {
                 match h {
-                    H::Waiting | H::EvictedInFlight => { *q2.lock().unwrap() = true; }
+                    H::Waiting | H::EvictedInFlight | H::EnvWritten => { *q2.lock().unwrap() = true; }
                     H::AfterComplete => { let _ = s.do_action(&Action::new(&e.pid, &e.tid, EventAction::Next, &Vars::new().with("a", 5))); }
                     H::EmptyCatch | H::CatchWithSteps => {
                         let mut o = Vars::new(); o.set(consts::ACT_ERR_CODE, "err1"); o.set(consts::ACT_ERR_MESSAGE, "biz error");
@@ -88,6 +92,7 @@ async fn verif_replay_hist_store_image() {
                 let live_env: serde_json::Value = serde_json::from_str(&proc.env().to_string()).unwrap_or_default();
                 let row_env: serde_json::Value = serde_json::from_str(&row.env).unwrap_or_default();
                 if live_env != row_env { diffs.push(format!("process: row env {row_env} / live {live_env}")); }
+                if h == H::EnvWritten && live_env.get("cnt") != Some(&serde_json::json!(7)) { diffs.push(format!("the script's write to $env is not in the live process: {live_env}")); }
             }
         }
         // C03: the process mirrors its root task once the root is terminal
